@@ -203,8 +203,47 @@ def run(ctx, res):
             msg="%s: after the line %s the returned `empty` flag is %s, expected %s" % (
                 fn.npath, " ".join("[%s]" % fsm.cls_name(x) for x in w) or '(empty line)', fin, want)))
     check_iter(res, lib)
+    check_carry(res, lib)
     res.exhaustive = True
     res.trusted = ["rustc MIR", "ecli-mirdump", "analysis/absint.py + fsm.py", "specs/tokenizer.py"]
+
+
+def check_carry(res, lib):
+    """T4: converting between a token list and its iterator carries both components unchanged (the pair
+    (raw text, exhausted flag) is what distinguishes `no tokens` from `one empty token`)."""
+    class R:
+        def inline_ok(self, I, ci, body):
+            return base.self_adt(body) in ('token::Tokens', 'token::TokensIter')
+
+        def on_call(self, I, w, ci, args):
+            return None
+
+    I = Interp([lib], R())
+    cases = []
+    for f in lib.lib_fns():
+        sa = base.self_adt(f)
+        if f.impl_trait is not None or f.kind != 'AssocFn':
+            continue
+        rt = base.ret_ty(f)
+        rp = F.norm_path(rt.get('path')) if rt.get('k') == 'adt' else None
+        if sa == 'token::TokensIter' and rp == 'token::Tokens' and f.body['arg_count'] == 1:
+            cases.append((f, 'token::TokensIter', 'token::Tokens', True))
+        if sa == 'token::Tokens' and rp == 'token::TokensIter' and f.body['arg_count'] == 1:
+            cases.append((f, 'token::Tokens', 'token::TokensIter', f.body['locals'][1]['ty'].get('k') != 'ref'))
+    if len(cases) < 2:
+        raise KeyError("Tokens <-> TokensIter conversions not found (%d)" % len(cases))
+    for f, src, dst, by_value in cases:
+        v = I.make_adt(src, tokens=('sym', 'raw'), empty=('sym', 'flag'))
+        arg = v if by_value else ('ref', (-1, 0, ()))
+        ex = I.run(f, [arg], None, {(-1, 0): v})
+        ti = I.field_index(dst, 'tokens')
+        ei = I.field_index(dst, 'empty')
+        for w, rv in ex:
+            good = rv[0] == 'adt' and rv[1] == dst and rv[3][ti] == ('sym', 'raw') and rv[3][ei] == ('sym', 'flag')
+            res.oblige("T4|%s" % f.npath, good, sample="%s carries (raw, flag)" % f.npath, violation=None if good else dict(
+                rule='C07.carry', key="C07|carry|%s" % f.npath,
+                msg="%s does not carry the raw token text and the exhausted flag unchanged (returns %s): `no tokens` and `one empty "
+                    "token` become indistinguishable" % (f.npath, (rv[3] if rv[0] == 'adt' else rv))))
 
 
 def check_iter(res, lib):
